@@ -343,7 +343,7 @@ func CmdCheck(args []string) int {
 		cfg.IfConvert = !h.NoIfConvert
 		budget := h.BudgetS[tier]
 		if budget == 0 {
-			budget = []int{240, 2400}[tier]
+			budget = []int{240, 1200}[tier]
 		}
 		cfg.Deadline = time.Now().Add(time.Duration(budget) * time.Second)
 		if tier == 1 {
